@@ -76,7 +76,7 @@ func (p *failPlan) call() error {
 }
 
 func runC28(rc *RC) {
-	switch rc.Pick(2, 2, 2, 2, 2, 2, 2, 2, 2) {
+	switch rc.Pick(4, 2, 2, 2, 4, 4, 4, 4, 4, 1, 1, 1, 1, 1, 1, 1, 1) {
 	case 0:
 		c28EachItem(rc)
 	case 1:
@@ -95,6 +95,22 @@ func runC28(rc *RC) {
 		c28Parallelise(rc)
 	case 8:
 		c28Merged(rc)
+	case 9:
+		c28EachFeature(rc, "basic mutable world")
+	case 10:
+		c28EachFeature(rc, "mutable overlay world over compact world")
+	case 11:
+		c28EachFeature(rc, "mutable tags overlay world")
+	case 12:
+		c28EachFeature(rc, "overlay world")
+	case 13:
+		c28EachFeature(rc, "overlay world over compact world")
+	case 14:
+		c28EachFeature(rc, "read-only world")
+	case 15:
+		c28EachFeature(rc, "modified features of mutable overlay world")
+	case 16:
+		c28EachFeature(rc, "world feature source")
 	}
 }
 
@@ -129,7 +145,8 @@ func c28EachFeature(rc *RC, kind string) {
 	target := "C28/EachFeature(" + kind + ")"
 	rc.Phase(target)
 	g := newCityGen(rc)
-	g.noBaseCollections = kind == "compact world"
+	compactBase := kind == "compact world" || kind == "mutable overlay world over compact world" || kind == "overlay world over compact world" || (kind == "mutable tags overlay world" && rc.Pct(50))
+	g.noBaseCollections = compactBase
 	specs := g.baseCity(true)
 	if rc.Pct(70) {
 		specs = append(specs, manyPoints(rc.Range(60, 160))...)
@@ -137,25 +154,108 @@ func c28EachFeature(rc *RC, kind string) {
 	var w b6.World
 	var err error
 	n := len(specs)
+	// each enumerates what the target enumerates
+	each := func(w b6.World, f func(goroutine int) error, goroutines int) error {
+		return w.EachFeature(func(_ b6.Feature, goroutine int) error { return f(goroutine) }, &b6.EachFeatureOptions{Goroutines: goroutines})
+	}
+	newBase := func() (b6.World, error) {
+		if compactBase {
+			return newCompactWorld(specs, 1)
+		}
+		return newBasicWorld(specs)
+	}
+	// overlayPoints adds replaced base points and new points to a mutable world
+	overlayPoints := func(o ingest.MutableWorld, lo, hi int) bool {
+		for i, k := 0, rc.Range(lo, hi); i < k; i++ {
+			s := g.pointSpec(rc.Draw(maxPoints), 2)
+			s.Tags = g.someTags(2)
+			if aerr := o.AddFeature(s.build()); aerr != nil {
+				rc.Fail("HARNESS/fixture", "%v", aerr)
+				return false
+			}
+		}
+		return true
+	}
 	switch kind {
-	case "basic world":
-		w, err = newBasicWorld(specs)
-	case "compact world":
-		w, err = newCompactWorld(specs, 1)
-	default:
+	case "basic world", "compact world":
+		w, err = newBase()
+	case "basic mutable world":
+		m := ingest.NewBasicMutableWorld()
+		for _, f := range buildAll(specs) {
+			if err = m.AddFeature(f); err != nil {
+				break
+			}
+		}
+		w = m
+	case "mutable tags overlay world":
 		var bw b6.World
-		bw, err = newBasicWorld(specs)
-		if err == nil {
-			o := ingest.NewMutableOverlayWorld(bw)
-			// some features in the overlay: replaced base points and new points
-			k := rc.Range(0, 12)
-			for i := 0; i < k; i++ {
+		if bw, err = newBase(); err == nil {
+			o := ingest.NewMutableTagsOverlayWorld(bw)
+			for i, k := 0, rc.Range(0, 8); i < k; i++ {
+				o.AddTag(specs[rc.Draw(len(specs))].ID, b6.Tag{Key: "note", Value: b6.NewStringExpression("x")})
+			}
+			w = o
+		}
+	case "overlay world", "overlay world over compact world":
+		var bw b6.World
+		if bw, err = newBase(); err == nil {
+			// the overlay: a basic world holding replaced base points and new ones
+			var over []*fspec
+			seen := map[b6.FeatureID]bool{}
+			for i, k := 0, rc.Range(0, 40); i < k; i++ {
 				s := g.pointSpec(rc.Draw(maxPoints), 2)
-				s.Tags = g.someTags(2)
-				if aerr := o.AddFeature(s.build()); aerr != nil {
-					rc.Fail("HARNESS/fixture", "%v", aerr)
-					return
+				if rc.Pct(50) {
+					s = manyPoints(200)[100+rc.Draw(100)]
 				}
+				if !seen[s.ID] {
+					seen[s.ID] = true
+					over = append(over, s)
+				}
+			}
+			var ow b6.World
+			if ow, err = newBasicWorld(over); err == nil {
+				w = ingest.NewOverlayWorld(ow, bw)
+				n = 0 // counted below
+			}
+		}
+	case "read-only world":
+		var bw b6.World
+		if bw, err = newBase(); err == nil {
+			w = ingest.ReadOnlyWorld{World: bw}
+		}
+	case "world feature source":
+		var bw b6.World
+		if bw, err = newBase(); err == nil {
+			w = bw
+			each = func(w b6.World, f func(goroutine int) error, goroutines int) error {
+				return ingest.WorldFeatureSource{World: w}.Read(ingest.ReadOptions{Goroutines: goroutines}, func(_ ingest.Feature, goroutine int) error { return f(goroutine) }, context.Background())
+			}
+		}
+	case "modified features of mutable overlay world":
+		var bw b6.World
+		if bw, err = newBase(); err == nil {
+			o := ingest.NewMutableOverlayWorld(bw)
+			for _, s := range manyPoints(rc.Range(1, 200)) {
+				s.ID.Value += 5000 // not in the base
+				if err = o.AddFeature(s.build()); err != nil {
+					break
+				}
+			}
+			if !overlayPoints(o, 0, 12) {
+				return
+			}
+			w = o
+			n = 0
+			each = func(w b6.World, f func(goroutine int) error, goroutines int) error {
+				return w.(*ingest.MutableOverlayWorld).EachModifiedFeature(func(_ b6.Feature, goroutine int) error { return f(goroutine) }, &b6.EachFeatureOptions{Goroutines: goroutines})
+			}
+		}
+	default: // mutable overlay worlds
+		var bw b6.World
+		if bw, err = newBase(); err == nil {
+			o := ingest.NewMutableOverlayWorld(bw)
+			if !overlayPoints(o, 0, 12) {
+				return
 			}
 			w = o
 		}
@@ -164,12 +264,28 @@ func c28EachFeature(rc *RC, kind string) {
 		rc.Fail("HARNESS/fixture", "%v", err)
 		return
 	}
+	// the number of features the target enumerates when nothing fails
+	// (sequentially, before the failure plan exists)
+	count := 0
+	if err := each(w, func(int) error { count++; return nil }, 1); err != nil {
+		rc.Fail(target+"/spurious-error", "enumeration with a callback that never fails returned %v", err)
+		return
+	}
+	if n != 0 && count < n {
+		rc.Fail("HARNESS/fixture", "%s enumerates %d features, source had %d", kind, count, n)
+		return
+	}
+	n = count
+	if n == 0 {
+		rc.SetNontrivial(false)
+		return
+	}
 	plan, goroutines := c28Plan(rc, n)
 	rc.Case(kind, n, goroutines, plan.at, plan.always, plan.slowPct)
 	rc.Notef("%s with %d features, EachFeature(goroutines=%d), callback fails at invocation %d (always=%v), slow%%=%d", kind, n, goroutines, plan.at, plan.always, plan.slowPct)
 	var cerr error
 	rc.Sim(target, func() {
-		cerr = w.EachFeature(func(f b6.Feature, goroutine int) error { return plan.call() }, &b6.EachFeatureOptions{Goroutines: goroutines})
+		cerr = each(w, func(int) error { return plan.call() }, goroutines)
 	})
 	checkStreamOutcome(rc, target, plan, n, 4*goroutines+8, true, cerr)
 }
